@@ -44,3 +44,79 @@ Theorem C02_fixed_same_schedule :
   released nat nat (drun bool nat nat false toy_step true toy_ops) = [5; 5; 5].
 Proof. exact fixed_toy_ok. Qed.
 Print Assumptions C02_fixed_same_schedule.
+
+(* ------------------------------------------------------------------------------------------
+   The wrapper at the granularity at which the real code can be crashed (model/DurableFine.v:
+   event / row written / checkpoint delivered + votes released / crash are separate operations; the
+   restored state is [restore s], equivalent -- not necessarily equal -- to the encoded state).  It is
+   this wrapper, instantiated with the full agreement model, that model/C02Check.v replays against
+   the real Service.mainLoop + persistence loop + crash DB. *)
+From Verif.model Require Import DurableFine.
+From Verif.proofs Require Import DurableFineProofs.
+
+Theorem C02_fine_released_after_persist :
+  forall (S E V : Type) (init : S) (step : S -> E -> S * list V) (restore : S -> S) (eqv : S -> S -> Prop),
+    (forall s, eqv s s) -> (forall a b c, eqv a b -> eqv b c -> eqv a c) ->
+    (forall s s' e, eqv s s' -> snd (step s e) = snd (step s' e) /\ eqv (fst (step s e)) (fst (step s' e))) ->
+    (forall s, eqv (restore s) s) ->
+    forall (ops : list (fop E)) (v : V),
+      In v (f_released S E V (frun S E V init step restore ops)) ->
+      exists p s vs, f_disk S E V (frun S E V init step restore ops) = Some (p, s, vs) /\
+                     eqv s (state_of S E V step init p) /\ In v (run_votes S E V step init p).
+Proof. exact fine_released_after_persist. Qed.
+Print Assumptions C02_fine_released_after_persist.
+
+Theorem C02_fine_crash_nonequiv :
+  forall (S E V : Type) (init : S) (step : S -> E -> S * list V) (restore : S -> S) (eqv : S -> S -> Prop),
+    (forall s, eqv s s) -> (forall a b c, eqv a b -> eqv b c -> eqv a c) ->
+    (forall s s' e, eqv s s' -> snd (step s e) = snd (step s' e) /\ eqv (fst (step s e)) (fst (step s' e))) ->
+    (forall s, eqv (restore s) s) ->
+    forall conflict : V -> V -> Prop,
+      (forall evs v1 v2, In v1 (run_votes S E V step init evs) -> In v2 (run_votes S E V step init evs) ->
+                         ~ conflict v1 v2) ->
+      forall ops v1 v2,
+        In v1 (f_released S E V (frun S E V init step restore ops)) ->
+        In v2 (f_released S E V (frun S E V init step restore ops)) -> ~ conflict v1 v2.
+Proof. exact fine_crash_nonequiv. Qed.
+Print Assumptions C02_fine_crash_nonequiv.
+
+(* anti-vacuity: the premises on [restore] / [eqv] are met by restore = identity, eqv = equality *)
+Example C02_fine_premises_id : forall (S E V : Type) (step : S -> E -> S * list V),
+  (forall s : S, s = s) /\ (forall a b c : S, a = b -> b = c -> a = c) /\
+  (forall s s' e, s = s' -> snd (step s e) = snd (step s' e) /\ fst (step s e) = fst (step s' e)) /\
+  (forall s : S, (fun x => x) s = s).
+Proof. exact fine_premises_id. Qed.
+
+(* SCOPE (DESIGN 4 C02): proposal-votes (step 0) come from assemble / repropose, which are not
+   persistent actions (repropose passes an already closed persistStateDone): they are released
+   without a persist, so a machine that votes once per run releases two values around a crash.
+   Stated as a proved non-theorem; outside the property's quantifier (attest actions). *)
+Theorem C02_propose_step_not_persisted :
+  (forall evs v1 v2, In v1 (run_votes bool nat nat toy_step false evs) ->
+                     In v2 (run_votes bool nat nat toy_step false evs) -> ~ (v1 <> v2)) /\
+  In 5 (snd (np_run bool nat nat false toy_step [Some 5; None; Some 6])) /\
+  In 6 (snd (np_run bool nat nat false toy_step [Some 5; None; Some 6])).
+Proof. split; [exact toy_once|exact np_refuted]. Qed.
+Print Assumptions C02_propose_step_not_persisted.
+
+(* in the agreement model: only attest actions are persistent (actions.go: pseudonodeAction.persistent) *)
+From Verif.model Require Import AgreementTypes.
+Example C02_assemble_repropose_not_persistent : forall r p v,
+  persistent [AAssemble r p; ARezero r] = false /\ persistent [ARepropose r p v] = false /\
+  persistent [AAttest r p s_soft v] = true.
+Proof. exact assemble_repropose_not_persistent. Qed.
+
+(* ------------------------------------------------------------------------------------------
+   Soundness of the executable oracle of model/C02Check.v: when [check] accepts a case, no two votes
+   released by the real code in that case have equal (sender, round, period, step) and different
+   values. *)
+From Verif.model Require Import C02Check.
+From Verif.proofs Require Import C02SpecProofs.
+
+Theorem C02_spec_ok_sound : forall own ops,
+  no_conflict_b (o_rel (spec_run own ops)) = true ->
+  forall v1 v2, In v1 (released_obs ops) -> In v2 (released_obs ops) ->
+    (cv_snd v1, cv_rnd v1, cv_per v1, cv_step v1) = (cv_snd v2, cv_rnd v2, cv_per v2, cv_step v2) ->
+    cv_val v1 = cv_val v2.
+Proof. exact spec_ok_no_equivocation. Qed.
+Print Assumptions C02_spec_ok_sound.
